@@ -22,7 +22,10 @@ def _mk_subset_problem():
 
     class QuadSubset(SubsetProblem):
         """score = sum a[i] + sum_{i<j} b[i][j] (+ second separable objective a2); cv = max(0, sum g - cap)"""
-        def __init__(self, space, k, a, b, g, cap, a2=None, g2=None, cap2=None):
+        def __init__(self, space, k, a, b, g, cap, a2=None, g2=None, cap2=None, objint=False, unit=1):
+            # objint: the objective vector is returned with an integer dtype (scores are integer counts); unit: violations
+            # are reported in units of 1/unit (unit = 2: halves, exact in binary) -- TLC sees the integer loads and caps
+            self.objint = bool(objint); self.unit = int(unit)
             self.pos = {int(v): p for p, v in enumerate(space)}
             self.a = np.array(a, float); self.b = np.array(b, float); self.g = np.array(g, float)
             self.cap = cap; self.a2 = None if a2 is None else np.array(a2, float)
@@ -42,7 +45,7 @@ def _mk_subset_problem():
             cv = [] if self.cap is None else [max(0.0, self.g[ix].sum() - self.cap)]
             if self.cap2 is not None:
                 cv.append(max(0.0, self.g2[ix].sum() - self.cap2))
-            return np.array(obj, float), np.array(cv, float), np.array([], float)
+            return np.array(obj, "int64" if self.objint else float), np.array(cv, float) / self.unit, np.array([], float)
     return QuadSubset
 
 
@@ -164,9 +167,9 @@ def subset_fields(c, space, n, k, a, b, g, cap, g2, cap2):
              g2=g2, cap2=cap2 if cap2 is not None else 0)
 
 
-def cvlist(arr, ncon):
-    """reported violation components as integers (10**6 where not an integer)"""
-    v = np.asarray(arr, dtype=float).ravel()
+def cvlist(arr, ncon, unit=1):
+    """reported violation components (times the problem's reporting unit) as integers (10**6 where not an integer)"""
+    v = np.asarray(arr, dtype=float).ravel() * unit
     if v.size != ncon:
         return [10 ** 6] * max(ncon, 1)
     return [toint(x) if toint(x) is not None else 10 ** 6 for x in v]
@@ -243,7 +246,7 @@ def run(ctx):
             space, a, b, g, cap, g2, cap2 = rand_subset_data(rng, n, k, separable, constrained, tight=plateau or (climber and rng.random() < 0.5))
             if plateau and cap2 is None:
                 g2 = [rng.choice([0, 1, 2, 3]) for _ in range(n)]; cap2 = max(0, sum(sorted(g2)[:k]) - rng.choice([0, 1, 2]))
-            prob = QuadSubset(space, k, a, b, g, cap, g2=g2, cap2=cap2)
+            prob = QuadSubset(space, k, a, b, g, cap, g2=g2, cap2=cap2, objint=rng.random() < 0.4, unit=rng.choice([1, 1, 2, 4]))
             before = snapshot(prob)
             seed = rng.randrange(2 ** 31)
             np.random.seed(seed)
@@ -281,7 +284,7 @@ def run(ctx):
             c["lat"] = bool(lat)
             ro = toint(np.asarray(soln.soln_obj).ravel()[0]) if np.asarray(soln.soln_obj).size else None
             c["obj"] = ro if ro is not None else 10 ** 6
-            c["cv"] = cvlist(np.asarray(soln.soln_ineqcv)[0] if np.asarray(soln.soln_ineqcv).ndim == 2 else soln.soln_ineqcv, c["ncon"]) if c["ncon"] else \
+            c["cv"] = cvlist(np.asarray(soln.soln_ineqcv)[0] if np.asarray(soln.soln_ineqcv).ndim == 2 else soln.soln_ineqcv, c["ncon"], prob.unit) if c["ncon"] else \
                 ([] if np.asarray(soln.soln_ineqcv).size == 0 else [10 ** 6])
             c["unchanged"] = snapshot(prob) == before
             if climber:
@@ -329,7 +332,7 @@ def run(ctx):
             k = rng.randrange(1, n - 1)
             space, a, b, g, cap, g2, cap2 = rand_subset_data(rng, n, k, rng.random() < 0.5, rng.random() < 0.5)
             a2 = [rng.randrange(-4, 5) for _ in range(n)]
-            prob = QuadSubset(space, k, a, b, g, cap, a2=a2, g2=g2, cap2=cap2)
+            prob = QuadSubset(space, k, a, b, g, cap, a2=a2, g2=g2, cap2=cap2, objint=rng.random() < 0.4, unit=rng.choice([1, 1, 2, 4]))
             before = snapshot(prob)
             seed = rng.randrange(2 ** 31)
             np.random.seed(seed)
@@ -357,7 +360,7 @@ def run(ctx):
                 o = [toint(v) for v in so[s]] if so.ndim == 2 else [None, None]
                 sols.append({"decn": [pos.get(toint(v), -1) for v in dec[s]],
                              "o1": o[0] if o[0] is not None else 10 ** 6, "o2": o[1] if o[1] is not None else 10 ** 6,
-                             "cv": cvlist(sc[s], c["ncon"]) if (c["ncon"] and sc.ndim == 2) else []})
+                             "cv": cvlist(sc[s], c["ncon"], prob.unit) if (c["ncon"] and sc.ndim == 2) else []})
             c.update(sols=sols, lat=bool(lat), dtypeok=bool(dec.ndim == 2 and np.issubdtype(dec.dtype, np.integer)),
                      unchanged=snapshot(prob) == before)
             finish_case(c, cls)
